@@ -28,7 +28,7 @@ type TxDesc struct {
 // SupDesc describes one signature slot placed in the header supLinks of a checkpoint block.
 type SupDesc struct {
 	Validator int    `json:"validator"` // index into the target's validator list (mod n), or a key index for bad kinds
-	Source    int    `json:"source"`    // how many checkpoints back the source is (1 = direct parent checkpoint)
+	Source    int    `json:"source"`    // selector: the source is 1 + Source%3 checkpoints back (0 = direct parent checkpoint), clamped at genesis
 	Bad       string `json:"bad,omitempty"`
 }
 
